@@ -262,7 +262,8 @@ def subq_case(draw):
         sql = f"SELECT x1.{c0} AS o0, x1.{c1} AS o1 FROM {t1} AS x1 WHERE {pred} OR {q.bool_expr(scope, 0, False)}"
     elif outer == "project":
         # the predicate's VALUE is observed (TRUE / FALSE / NULL), not just whether the row passes a filter
-        sql = f"SELECT x1.{c0} AS o0, CASE WHEN {pred} THEN 1 WHEN NOT ({pred}) THEN 0 END AS o1 FROM {t1} AS x1"
+        form = draw(st.sampled_from(("CASE WHEN {p} THEN 1 WHEN NOT ({p}) THEN 0 END", "CASE WHEN ({p}) IS NULL THEN 2 WHEN {p} THEN 1 ELSE 0 END", "CAST({p} AS INT)")))
+        sql = f"SELECT x1.{c0} AS o0, {form.format(p=pred)} AS o1 FROM {t1} AS x1"
     elif outer == "isnull":
         sql = f"SELECT x1.{c0} AS o0, x1.{c1} AS o1 FROM {t1} AS x1 WHERE ({pred}) IS {draw(st.sampled_from(('NULL', 'NOT NULL', 'NOT TRUE')))}"
     else:
@@ -284,6 +285,16 @@ def subq_case(draw):
             r[ii] = v
             tabs[t2] = tabs[t2] + [r]
         feats.add("subq:inner-repeats-key")
+        if draw(st.booleans()):
+            # ... and NULLs on both sides: an unknown membership test is where a join-based rewrite and the original part ways
+            onull = list(orow)
+            onull[oi] = None
+            tabs[t1] = tabs[t1] + [onull]
+            inull = [(7 if ty == "int" else "z") for _, ty in queries.SCHEMA[t2]]
+            inull[ii] = None
+            if t1 != t2:
+                tabs[t2] = tabs[t2] + [inull]
+            feats.add("subq:nulls-both-sides")
     return {"sql": sql, "tables": tabs, "features": sorted(feats), "ordered": False, "ncols": 2, "types": ["int", "int"]}
 
 
